@@ -264,16 +264,25 @@ size_t varintRLEGetRunCount(const uint8_t *src, size_t encodedSize) {
     size_t runs = 0;
 
     while (ptr < end) {
-        size_t runLen;
-        uint64_t value;
-        size_t consumed = varintRLEDecodeRun(ptr, &runLen, &value);
-
-        if (runLen == 0 || consumed == 0) {
+        /* Bounded reads: a run cut short by 'encodedSize' ends the count
+         * instead of being read past the end of the buffer */
+        const size_t remaining = (size_t)(end - ptr);
+        const int32_t avail =
+            remaining > INT32_MAX ? INT32_MAX : (int32_t)remaining;
+        uint64_t runLen = 0;
+        uint64_t value = 0;
+        const varintWidth w1 = varintTaggedGet(ptr, avail, &runLen);
+        if (w1 == 0) {
+            break;
+        }
+        const varintWidth w2 =
+            varintTaggedGet(ptr + w1, avail - (int32_t)w1, &value);
+        if (w2 == 0 || runLen == 0) {
             break;
         }
 
         runs++;
-        ptr += consumed;
+        ptr += (size_t)w1 + (size_t)w2;
     }
 
     return runs;
